@@ -32,7 +32,9 @@ def _single_return(fn):
 
 
 def source_of(fnode, expr, prog=None, func=None, depth=0, out=None):
-    out = out if out is not None else {"terminal": None, "filtered": [], "lossy": [], "conds": []}
+    out = out if out is not None else {"terminal": None, "filtered": [], "lossy": [], "conds": [], "via": []}
+    if isinstance(expr, (ast.Attribute, ast.Call)) and (dotted(expr if isinstance(expr, ast.Attribute) else expr.func) or "").startswith(("self.", "cls.")):
+        out["via"].append(ast.unparse(expr))   # named populations passed through on the way to the terminal
     if depth > 8 or expr is None:
         out["terminal"] = ast.unparse(expr) if expr is not None else None
         return out
